@@ -116,7 +116,7 @@ fn check_step<const N: usize>(g: &mut CatchGradualDifficulty, w: &Witness<N>, m:
     let ghost = ghost_probe();
     let log0 = log_len();
 
-    assert!(g.len() == remaining, "C15 catch: len() equals the number of values still to come");
+    assert!(g.len() == remaining, "C15,C02 catch: len() equals the number of values still to come");
     let (lo, hi) = g.size_hint();
     assert!(lo == g.len() && hi == Some(lo), "C15 catch: size_hint() agrees with len()");
     if w.call == 2 {
@@ -127,7 +127,7 @@ fn check_step<const N: usize>(g: &mut CatchGradualDifficulty, w: &Witness<N>, m:
 
     if n < remaining {
         let k = p + n + 1;
-        assert!(res.is_some(), "C15 catch: a value is produced while enough values remain");
+        assert!(res.is_some(), "C15,C02 catch: a value is produced while enough values remain");
         let a = res.unwrap();
         assert!(a.n_fruits == m.fruits[k], "C02 catch: n_fruits counts the fruits of the prefix");
         assert!(a.n_droplets == m.droplets[k], "C02 catch: n_droplets counts the droplets of the prefix");
